@@ -103,7 +103,7 @@ UNIT = {
   'struct XRefInfo': {'kind': 'decl', 'file': X, 'container': XREF, 'header': r'^pub struct XRefInfo$',
                       
                       # the framework's attribute stripper stops at the `]` inside `default = "vec![0, size]"`: drop the rest
-                      'rewrites': [{'rule': 'R2', 'find': '")]', 'replace': ''}] + pubfields('prev')},
+                      'rewrites': pubfields('prev')},
   'XRefInfo::from_dict': from_dict('XRefInfo', XREF, XREF_KEYS, [
       ('rd_model', 'xref_read(dict@, resolve.store(), r)')], extra=[VEC2]),
   'XRefInfo::to_dict': to_dict('XRefInfo', XREF, XREF_KEYS, [
